@@ -614,8 +614,12 @@ func oneRead(text []byte, via string, tmpdir string, base runLine, calls int, em
 
 // Main is the entry point of `vh sdl`.
 func Main(args []string) int {
+	if len(args) > 0 && args[0] == "abstract" {
+		return abstractMain(args[1:])
+	}
 	if len(args) == 0 || args[0] != "run" {
-		fmt.Fprintln(os.Stderr, "usage: vh sdl run --docs F --out F [--perms N] [--seed S] [--proc P] [--calls C] [--yaml-dir D]")
+		fmt.Fprintln(os.Stderr, "usage: vh sdl run --docs F --out F [--perms N] [--seed S] [--proc P] [--calls C] [--yaml-dir D]\n"+
+			"       vh sdl abstract --files a.yaml,b.yaml --out F")
 		return 2
 	}
 	fs := flag.NewFlagSet("sdl run", flag.ContinueOnError)
@@ -645,15 +649,31 @@ func Main(args []string) int {
 	nruns := 0
 	err = vcommon.ReadLines(*docs, func(raw json.RawMessage) error {
 		id++
-		var d aDoc
+		var d srcDoc
 		dec := json.NewDecoder(bytes.NewReader(raw))
 		dec.DisallowUnknownFields()
 		if err := dec.Decode(&d); err != nil {
 			return fmt.Errorf("doc %d: %v", id, err)
 		}
+		var orig []byte
+		if d.Src != "" { // a document abstracted from a file: the real code gets the file's own text, permuted
+			var err error
+			if orig, err = ioutil.ReadFile(d.Src); err != nil {
+				return err
+			}
+		}
 		for k := 0; k < *perms; k++ {
 			perm := *permBase + k
-			text := Render(&d, perm, *seed*1000003+int64(id)*131+int64(perm))
+			pseed := *seed*1000003 + int64(id)*131 + int64(perm)
+			var text []byte
+			if orig != nil {
+				var err error
+				if text, err = PermuteText(orig, perm, pseed); err != nil {
+					return fmt.Errorf("doc %d: %v", id, err)
+				}
+			} else {
+				text = Render(&d.aDoc, perm, pseed)
+			}
 			if *yamlDir != "" {
 				_ = ioutil.WriteFile(filepath.Join(*yamlDir, fmt.Sprintf("doc%d-perm%d.yaml", id, perm)), text, 0644)
 			}
